@@ -39,7 +39,7 @@ IkePropVector(su, grp, wire) ==
   LET p == IkeProp(su, grp) IN
   Vector("ikeprop", << Step("proposal_roundtrip", "C11", FALSE, [kind |-> "ike", prop |-> p, wire |-> wire],
       [panic |-> FALSE, err |-> FALSE, encr |-> AesName(su.encr), integ |-> su.integ, prf |-> su.prf, dh |-> "modp-" \o ToString(grp),
-       back |-> Sorted(p.tr), backproto |-> 1]) >>
+       back |-> Sorted(p.tr), backproto |-> 1, appendsafe |-> TRUE]) >>
     \o  \* the same proposal with one element replaced by an unsupported one, or removed: building the SA must fail
     [i \in 1..4 |-> Step("proposal_roundtrip", "C11", FALSE,
         [kind |-> "ike", prop |-> [p EXCEPT !.tr = [j \in 1..4 |-> IF j = i THEN [p.tr[j] EXCEPT !.tid = IF i = 1 THEN 13 ELSE 9] ELSE p.tr[j]]], wire |-> wire],
@@ -54,7 +54,7 @@ ChildPropVector(e, a, d, x, wire) ==
   LET p == ChildProp(e, a, d, x) IN
   Vector("childprop", << Step("proposal_roundtrip", "C11", FALSE, [kind |-> "child", prop |-> p, wire |-> wire],
       IF a = "none" THEN [panic |-> FALSE]      \* absent integrity: the property does not say whether such a proposal must be accepted
-      ELSE [panic |-> FALSE, err |-> FALSE, encr |-> e, integ |-> a, dh |-> d, esn |-> x, back |-> Sorted(p.tr), backproto |-> 3]),
+      ELSE [panic |-> FALSE, err |-> FALSE, encr |-> e, integ |-> a, dh |-> d, esn |-> x, back |-> Sorted(p.tr), backproto |-> 3, appendsafe |-> TRUE]),
     Step("proposal_roundtrip", "C11", FALSE, [kind |-> "child", prop |-> [p EXCEPT !.tr = [j \in 1..Len(p.tr) |-> IF j = 1 THEN [p.tr[1] EXCEPT !.av = 129] ELSE p.tr[j]]], wire |-> wire],
       [panic |-> FALSE, err |-> TRUE]),
     Step("proposal_roundtrip", "C11", FALSE, [kind |-> "child", prop |-> [p EXCEPT !.tr = [j \in 1..Len(p.tr) |-> IF p.tr[j].tt = 5 THEN [p.tr[j] EXCEPT !.tid = 2] ELSE p.tr[j]]], wire |-> wire],
